@@ -295,6 +295,12 @@ def gen_facts(node: Node, aliases) -> list[tuple[str, bool]]:
     out = []
     if node.kind != "stmt":
         return out
+    if isinstance(s, ast.Expr) and isinstance(s.value, ast.Call) and isinstance(s.value.func, ast.Attribute) \
+            and s.value.func.attr in ("append", "appendleft", "add") and len(s.value.args) == 1:
+        base = s.value.func.value
+        if isinstance(base, (ast.Name, ast.Attribute)) and not contains(base, (ast.Call, ast.Subscript)):
+            return [(ast.unparse(subst(base, {})), True)]   # a container is non-empty right after an insertion
+        return out
     if isinstance(s, ast.Assign) and len(s.targets) == 1:
         t, v = s.targets[0], s.value
     elif isinstance(s, ast.AnnAssign) and s.value is not None:
